@@ -25,6 +25,8 @@ LOC = "crates/syntax/src/parser.rs"
 
 
 def run(F, res, tier):
+    from rules import c14 as _c14u
+    _c14u.text_positions_are_counted_in_bytes(F, res, rule="N17", crates=('ide',))   # engine U: rename edits every use: the search range covers the whole file in bytes
     from rules import c05 as _c05s18
     _c05s18.name_tables_have_one_duplicate_policy(F, res, rule="N8")   # a symbol declared twice is one symbol for rename
     _c05s18.qualified_types_do_not_fall_back(F, res, rule="N9")         # `other.Kind` is never the local `Kind` (rename would miss / capture it)
